@@ -24,6 +24,11 @@ func scenarios() []*sess.Scenario {
 		{Name: "S6-vector-results-re-sent-after-salt-rejection", Salt: 77, Opt: all, RotateBefore: map[int]int64{1: 88}, Callers: [][]sess.Call{{{Tag: 1, Kind: rpcsrv.KVecInt}}, {{Tag: 2, Kind: rpcsrv.KVecObj}}}},
 		// a big answer (48 KiB of Vector<int>), plain or gzip-packed: it spans several reads of the unpacker
 		{Name: "S7-big-vector-result-plain-or-gzip", Salt: 77, Opt: all, Callers: [][]sess.Call{{{Tag: 1, Kind: rpcsrv.KVecIntBig}}, {{Tag: 2, Kind: rpcsrv.KObj}}}},
+		// one frame - a request or an acknowledgement, whichever the explorer picks - cannot be written (the write
+		// fails as a whole and the connection stays usable): the call whose request it was gets the error, every
+		// other call still gets exactly its own result
+		{Name: "W1-one-write-fails", Salt: 77, Opt: rpcsrv.Options{Reorder: true, IDAtGeneration: true}, WriteFaults: 1,
+			Callers: [][]sess.Call{{{Tag: 1, Kind: rpcsrv.KObj}, {Tag: 2, Kind: rpcsrv.KBool}, {Tag: 3, Kind: rpcsrv.KObj}}, {{Tag: 4, Kind: rpcsrv.KObj}, {Tag: 5, Kind: rpcsrv.KObj}}}},
 		{Name: "S5-sequential-all-kinds", Salt: 77, Opt: all, Callers: [][]sess.Call{{{Tag: 1, Kind: rpcsrv.KObj}, {Tag: 2, Kind: rpcsrv.KBool}, {Tag: 3, Kind: rpcsrv.KVecInt}, {Tag: 4, Kind: rpcsrv.KVecObj}, {Tag: 5, Kind: rpcsrv.KErr}}}},
 	}
 }
